@@ -23,6 +23,23 @@ add("C15", "exploration",
     "Trusts the NUL-scan reference and core::str::from_utf8.",
     "exhaustive enumeration + property-based testing (proptest) against a reference implementation", "DESIGN.md §5 C15")
 
+add("C11", "exploration",
+    "Seeded proptest search over name sets built to collide (constructed djb2 collisions, low-bit neighbours, same-bucket names, duplicates, empty and high-byte names), table parameters (nbucket, bloom words 1..64, shift 0..31, symoffset) and all four encodings; .gnu.hash sections come from an independent builder (inverse oracle) and every lookup is judged against a linear scan; a second stream corrupts the tables arbitrarily and checks the soundness clause; the hash function is compared with a djb2 reference exhaustively on short strings and on random strings.",
+    "Trusts the independent GNU-hash builder (bloom/bucket/chain layout per the GNU format) and the linear-scan oracle.",
+    "property-based testing (proptest): inverse oracle (table builder) + linear-scan reference + corruption for soundness; exhaustive enumeration for short hash inputs", "DESIGN.md §5 C11")
+add("C12", "exploration",
+    "As C11 for the gABI .hash section: independent builder (head/tail/mixed chain insertion, nbucket 1..64, nchain = symbol count), collisions found by search, long and high-byte names for the top-nibble fold, linear-scan oracle, corruption stream for soundness, sysv_hash against the gABI elf_hash reference exhaustively on 4369 short strings and on random strings.",
+    "Trusts the independent .hash builder and the transcription of the gABI elf_hash figure.",
+    "property-based testing (proptest): inverse oracle (table builder) + linear-scan reference + corruption for soundness; exhaustive enumeration for short hash inputs", "DESIGN.md §5 C12")
+add("C13", "exploration",
+    "Seeded proptest search over version models (files x aux records, definitions x names, versym arrays with hidden/unknown/local/global entries) laid out by an independent builder in random forward-linked, interleaved, gapped record orders; every symbol index is queried through the stand-alone table, ElfBytes and ElfStream and compared with the model.",
+    "Trusts the version-graph builder (GNU symbol-versioning layout) and the file builder; well-formedness as scoped in the statement.",
+    "property-based testing (proptest) with an inverse oracle: version-graph model -> section bytes -> queries compared with the model", "DESIGN.md §5 C13")
+add("C14", "exploration",
+    "Seeded proptest search over note sequences (sizes of every residue, GNU typed notes, name shapes), alignments incl. non-powers of two and huge values, both byte orders and classes, exact/garbage/truncated/corrupted tails, three access paths; judged against an independent reference walker with pointer-exact name/desc ranges.",
+    "Trusts the 40-line reference walker; ambiguous tails (empty descriptor starting in padding beyond the data) are excluded and counted.",
+    "property-based testing (proptest) against a reference implementation (note walker)", "DESIGN.md §5 C14")
+
 NOT_YET = {}
 allp = [json.loads(l)["id"] for l in open("properties.jsonl")]
 checks = []
